@@ -49,7 +49,7 @@ def generate(rng, tier, idx):
         if r < 0.45:
             continue
         names = [rng.choice(NAMES)] if r < 0.9 else ['Manifest', rng.choice(NAMES[1:])]
-        for nm in set(names):
+        for nm in sorted(set(names)):
             ents = []
             if rng.random() < 0.5 and li < len(levels) - 1:
                 # IGNORE something relative to this directory
